@@ -245,7 +245,19 @@ fn raw_steps(side: usize, id: u64, plan: RawPlan, rng: &mut Rng) -> Vec<ScriptSt
         } else {
             // make the stream exist for the peer: a reset alone surfaces it
         }
-        steps.push(raw::step_reset(side, id, code));
+        // the reset is sent either as soon as possible (it may then overtake data) or only once
+        // h3 has pulled a chosen part of the written bytes out of the transport - h3 reads one
+        // chunk ahead of the application, so the reset then finds payload still buffered in h3
+        if off > 0 && rng.bool() {
+            let need = off - rng.usize(off / 2 + 1);
+            steps.push(raw::step_custom(
+                "reset after h3 read a prefix",
+                move |n| n.streams.get(&id).map(|s| s.pipe(side).read >= need || n.closed.is_some()).unwrap_or(false),
+                move |n, _| n.raw_reset(side, id, code),
+            ));
+        } else {
+            steps.push(raw::step_reset(side, id, code));
+        }
         return steps;
     }
     // write frame by frame so that other streams interleave
